@@ -13,7 +13,8 @@ PatsO == {"/u/{id}", "/u/{id:\\d+}", "/u/{id:digit}", "/u/5", "/u/{id}/x", "/u/{
 HOpsO == {H(p, G) : p \in PatsO}
 ROpsO == {}  COpsO == {}  UOpsO == {}
 CfgsO == {Cfg(FALSE)}
-BasesO == {<<>>}
+\* the second base puts five literal children under /u/ (first-byte index) using only the probe alphabet
+BasesO == {<<>>, <<H("/u/5", G), H("/u/7", G), H("/u/x", G), H("/u/u", G), H("/u//", G)>>}
 ProbesO == PathSeq({"/", "u", "x", "5", "7"}, L)
 MethodsO == <<"GET">>
 NoExtraO == NoExtra
